@@ -120,3 +120,17 @@ Proof.
   destruct (K w1 0 1 (DI (dd 7) None []) [] (dd 7) None [] [] _ _ _ (DInt 7) W eq_refl eq_refl eq_refl eq_refl eq_refl) as [E _].
   discriminate E.
 Qed.
+
+(* the nested case of the audit (T2.v: [DI 5 [DI 7; DI 7]] accepted by the swallowing model): the statement of
+   C03_from_dict_ok_dup_free is FALSE for the swallowing model *)
+From NT Require Import FromDictDup.
+Theorem swallowing_nested_excluded :
+  ~ (forall w ti p items r w', WFw w -> op_from_dict_bad w ti p items = (Ok r, w') ->
+       exists t, get_tree w ti = Some t /\ dup_free (calc t) items).
+Proof.
+  intros K. assert (W : WFw w1) by (apply wf_world_b_WFw; vm_compute; reflexivity).
+  destruct (K w1 0 1 [DI (dd 5) None [DI (dd 7) None []; DI (dd 7) None []]] _ _ W eq_refl) as (t & Gt & H).
+  inversion H as [l N Kk]; subst. specialize (Kk _ (or_introl eq_refl)). cbn [item_kids] in Kk.
+  inversion Kk as [l' N' _]; subst. vm_compute in Gt. injection Gt as <-. cbn in N'. inversion N' as [|? ? Hn _]; subst. apply Hn. now left.
+Qed.
+Print Assumptions swallowing_nested_excluded.
